@@ -123,6 +123,7 @@ class InstState:
         self.dropped = 0
         self.violation = None
         self.clock_on = False
+        self.eff_budget = inst.budget_s
 
 
 def run_instances(module, instances, total_budget_s, stop_on_violation=True, log=print):
@@ -153,7 +154,11 @@ def run_instances(module, instances, total_budget_s, stop_on_violation=True, log
                     if all(states[o].finished is not None for o in order if order[o] < order[name]):
                         st.clock_on = True
                         st.started = now
-                if st.clock_on and now - st.started > st.inst.budget_s or now - t0 > total_budget_s:
+                        # proportional share of what is left of the tier's total budget (unused time rolls over to later instances)
+                        left = [states[o].inst.budget_s for o in order if order[o] >= order[name] and states[o].finished is None]
+                        remaining = max(0.0, total_budget_s - (now - t0))
+                        st.eff_budget = min(st.inst.budget_s, max(30.0, remaining * st.inst.budget_s / max(1.0, sum(left))))
+                if st.clock_on and now - st.started > st.eff_budget or now - t0 > total_budget_s:
                     st.status = "budget"
                     st.dropped += len(roots)
                     continue
